@@ -85,6 +85,7 @@ class IndexableArray(RaggedBase):
 
     def __setitem__(self, _index: Union[Tuple, List[int], npt.ArrayLike, int, slice], value: npt.ArrayLike):
         self.ravel()
+        self._detach_lazy_selections()
         ret = self._get_row_subset(_index)
         if ret == NotImplemented:
             raise TypeError(f"Invalid index for ragged array {type(_index)}: {_index}")
